@@ -1112,6 +1112,34 @@ func runC02Src(c *Ctx) {
 	p := c.P
 	srcs := map[string]bool{"time.Now": true, "time.Since": true, "os.Getpid": true, "os.Getppid": true, "os.Hostname": true}
 	occ := map[string]int{}
+	// what a call does with a run-dependent value (or under a run-dependent condition)
+	const (
+		callLog   = iota // verbose/debug log
+		callPure         // computes on the value: follow the result
+		callSink         // builds a diagnostic or text of unknown destination
+		callOther        // anything else
+	)
+	classify := func(r *ssa.Call) (int, string) {
+		cn := calleeFullName(&r.Call)
+		if f := staticCallee(&r.Call); f != nil && inPkgName(f) {
+			cn = FuncName(f)
+		}
+		switch {
+		case cn == "(*Linter).log" || cn == "(*Linter).debug" || cn == "(*Visitor).reportElapsedTime" || strings.HasSuffix(cn, ").Debug") || strings.HasSuffix(cn, ").debug"):
+			return callLog, cn
+		case cn == "time.Since" || cn == "time.Now" || strings.HasPrefix(cn, "(time.Time).") || strings.HasPrefix(cn, "(time.Duration)."):
+			return callPure, cn
+		case strings.HasPrefix(cn, "fmt.Fprint"):
+			// writing to a debug/log writer is fine
+			if f, _ := fieldLoad(unwrap(r.Call.Args[0])); strings.HasSuffix(f, ".dbg") || strings.HasSuffix(f, ".logOut") {
+				return callLog, cn
+			}
+			return callSink, cn + " to " + symName(r.Call.Args[0])
+		case emitsDiag(r) || cn == "(*RuleBase).Errorf" || cn == "(*RuleBase).Error" || strings.HasPrefix(cn, "fmt.Sprint") || cn == "fmt.Errorf":
+			return callSink, cn
+		}
+		return callOther, cn
+	}
 	for _, fn := range p.Funcs {
 		eachInstr(fn, func(_ *ssa.BasicBlock, _ int, in ssa.Instruction) {
 			call, ok := in.(*ssa.Call)
@@ -1125,10 +1153,18 @@ func runC02Src(c *Ctx) {
 			k := FuncName(fn) + "|" + name
 			occ[k]++
 			construct := fmt.Sprintf("%s#%d", k, occ[k])
-			// forward slice
+			// forward slice, data and control: a branch decided by the value may only choose what is logged
 			bad := ""
 			seen := map[ssa.Value]bool{}
+			seenIf := map[*ssa.If]bool{}
+			badDepth := 0
+			setBad := func(d int, s string) { // the shortest chain from the source names the finding
+				if bad == "" || d < badDepth {
+					bad, badDepth = s, d
+				}
+			}
 			var walk func(v ssa.Value, d int)
+			var underBranch func(ifi *ssa.If, d int)
 			walk = func(v ssa.Value, d int) {
 				if d > 10 || seen[v] || v.Referrers() == nil {
 					return
@@ -1136,24 +1172,13 @@ func runC02Src(c *Ctx) {
 				seen[v] = true
 				for _, ref := range *v.Referrers() {
 					switch r := ref.(type) {
+					case *ssa.If:
+						underBranch(r, d)
 					case *ssa.Call:
-						cn := calleeFullName(&r.Call)
-						if f := staticCallee(&r.Call); f != nil && inPkgName(f) {
-							cn = FuncName(f)
-						}
-						switch {
-						case cn == "(*Linter).log" || cn == "(*Linter).debug" || cn == "(*Visitor).reportElapsedTime" || strings.HasSuffix(cn, ").Debug") || strings.HasSuffix(cn, ").debug"):
-							// log only
-						case cn == "time.Since" || strings.HasPrefix(cn, "(time.Time).") || strings.HasPrefix(cn, "(time.Duration)."):
-							walk(r, d+1)
-						case strings.HasPrefix(cn, "fmt.Fprint"):
-							// writing to a debug/log writer is fine
-							if f, _ := fieldLoad(unwrap(r.Call.Args[0])); strings.HasSuffix(f, ".dbg") || strings.HasSuffix(f, ".logOut") {
-								break
-							}
-							bad = cn + " to " + symName(r.Call.Args[0])
-						case emitsDiag(r) || cn == "(*RuleBase).Errorf" || cn == "(*RuleBase).Error" || strings.HasPrefix(cn, "fmt.Sprint") || cn == "fmt.Errorf":
-							bad = cn
+						switch kind, what := classify(r); kind {
+						case callLog:
+						case callSink:
+							setBad(d, what)
 						default:
 							walk(r, d+1)
 						}
@@ -1166,7 +1191,7 @@ func runC02Src(c *Ctx) {
 								}
 							}
 						} else if fa, ok := r.Addr.(*ssa.FieldAddr); ok {
-							bad = "field " + fieldAddrName(fa)
+							setBad(d, "field "+fieldAddrName(fa))
 						} else if ia, ok := r.Addr.(*ssa.IndexAddr); ok {
 							// an element of a variadic argument list
 							if al, ok := ia.X.(*ssa.Alloc); ok {
@@ -1182,9 +1207,101 @@ func runC02Src(c *Ctx) {
 					}
 				}
 			}
+			underBranch = func(ifi *ssa.If, d int) {
+				if seenIf[ifi] {
+					return
+				}
+				seenIf[ifi] = true
+				b := ifi.Block()
+				where := "a branch on it (" + p.Pos(ifi.Cond.Pos()) + ") that decides "
+				region := map[*ssa.BasicBlock]bool{}
+				for _, s := range b.Succs {
+					if len(s.Preds) != 1 {
+						continue
+					}
+					for _, x := range b.Parent().Blocks {
+						if s.Dominates(x) {
+							region[x] = true
+						}
+					}
+				}
+				for _, x := range b.Parent().Blocks {
+					if !region[x] {
+						// what the arms computed differently is selected by the branch
+						fromArm := false
+						for _, pr := range x.Preds {
+							if pr == b || region[pr] {
+								fromArm = true
+							}
+						}
+						if fromArm {
+							for _, in := range x.Instrs {
+								if ph, ok := in.(*ssa.Phi); ok {
+									walk(ph, d+1)
+								}
+							}
+						}
+						continue
+					}
+					for _, in := range x.Instrs {
+						switch r := in.(type) {
+						case *ssa.Call:
+							switch kind, what := classify(r); kind {
+							case callLog, callPure:
+							case callSink:
+								if !strings.HasPrefix(what, "fmt.Sprint") && what != "fmt.Errorf" {
+									setBad(d, where+"whether "+what+" is called")
+								}
+							default:
+								_, isBuiltin := r.Call.Value.(*ssa.Builtin)
+								g := staticCallee(&r.Call)
+								computes := false
+								for _, pre := range []string{"strings.", "strconv.", "time.", "math.", "unicode.", "unicode/utf8.", "errors.", "bytes.", "path.", "path/filepath."} {
+									if strings.HasPrefix(what, pre) {
+										computes = true
+									}
+								}
+								if !isBuiltin && (g == nil || inModule(g) || !computes) {
+									setBad(d, where+"whether "+what+" is called")
+								}
+							}
+						case *ssa.Store:
+							if al, ok := r.Addr.(*ssa.Alloc); ok {
+								walk(al, d+1)
+								for _, r2 := range *al.Referrers() {
+									if ld, ok := r2.(*ssa.UnOp); ok {
+										walk(ld, d+1)
+									}
+								}
+								continue
+							}
+							if ia, ok := r.Addr.(*ssa.IndexAddr); ok {
+								if _, ok := ia.X.(*ssa.Alloc); ok {
+									continue // a variadic argument list
+								}
+							}
+							what := "a store"
+							if fa, ok := r.Addr.(*ssa.FieldAddr); ok {
+								what = "a store to field " + fieldAddrName(fa)
+							}
+							setBad(d, where+"whether "+what+" happens")
+						case *ssa.MapUpdate:
+							setBad(d, where+"whether a map is updated")
+						case *ssa.Send:
+							setBad(d, where+"whether a value is sent")
+						case *ssa.Go, *ssa.Defer, *ssa.Panic:
+							setBad(d, where+"whether "+in.String()+" happens")
+						case *ssa.Return:
+							if len(r.Results) > 0 {
+								setBad(d, where+"what is returned")
+							}
+						}
+					}
+				}
+			}
 			walk(call, 0)
 			if bad == "" {
-				c.ok(construct, call.Pos(), "only feeds elapsed-time figures of the verbose/debug log")
+				c.ok(construct, call.Pos(), "only feeds elapsed-time figures of the verbose/debug log; no branch on it decides more than what is logged")
 			} else {
 				c.bad(construct, call.Pos(), "a value that differs from run to run reaches "+bad+": the output is not a function of the inputs")
 			}
